@@ -392,6 +392,53 @@ def r6(ctx):
               "snapshots are built from the ledger's balances and open orders", got=names, key="sources")
 
 
+def r7(ctx):
+    """the one-step helpers open_order / run / account_snapshot rely on play exactly their roles"""
+    L = common.leaf_role
+    L(ctx, "AccountState::balance_mut", ctx.fbody(name="balance_mut", self_adt=ACC, trait=""),
+      "the balance handed out for debiting is the ledger entry keyed by the asked asset", ret="HashMap::get_mut(self.balances, asset)", effects=["HashMap::get_mut(self.balances, asset)"])
+    L(ctx, "AccountState::ack_trade", ctx.fbody(name="ack_trade", self_adt=ACC, trait=""),
+      "acknowledging a trade appends that trade to the log, always", effects=["Vec::push(self.trades, trade)"])
+    L(ctx, "AccountState::balances", ctx.fbody(name="balances", self_adt=ACC, trait=""), "snapshot source: all balances",
+      ret="HashMap::values(self.balances)", effects=[])
+    L(ctx, "AccountState::orders_open", ctx.fbody(name="orders_open", self_adt=ACC, trait=""), "snapshot source: all open orders",
+      ret="HashMap::values(self.orders_open)", effects=[])
+    L(ctx, "AccountState::orders_cancelled", ctx.fbody(name="orders_cancelled", self_adt=ACC, trait=""), "snapshot source: all cancelled orders",
+      ret="HashMap::values(self.orders_cancelled)", effects=[])
+    fr = ctx.find(name="from", self_adt=ACC, trait="std::convert::From")
+    cl = ctx.closures_of(fr)
+    keyed = [render(ctx.body(d).return_term()) for d in cl]
+    ctx.check("AccountState::from", "tuple{0: $1.asset, 1: $1}" in keyed and
+              render(ctx.body(fr).return_term()).startswith("AccountState::AccountState{balances: Iterator::collect(Iterator::map(value.balances, closure:"),
+              "the initial ledger keys every balance of the snapshot by its own asset", got=keyed[:2], key="keyed-by-own-asset")
+    L(ctx, "MockExchange::find_instrument_data", ctx.fbody(name="find_instrument_data", self_adt=MX, trait=""),
+      "the instrument (hence the base / quote assets) is looked up by the order's own instrument name",
+      ret="Option::ok_or_else(HashMap::get(self.instruments, instrument), closure:find_instrument_data::{closure#0}{instrument})", effects=[])
+    v = ctx.fbody(name="validate_order_kind_supported", self_adt=MX, trait="")
+    tab = {}
+    for g, term, bi in v.local_cases(0):
+        tab[render_guard(g)] = render(term)[:40]
+    ctx.check("MockExchange::validate_order_kind_supported",
+              tab.get("(OrderKind::eq(order_kind, OrderKind::Market{}))") == "Result::Ok{0: tuple{}}" and len(tab) == 2 and
+              all(x.startswith("Result::Err{0: OrderError::Rejected") for k, x in tab.items() if k.startswith("(!")),
+              "exactly market orders are supported; anything else is rejected", got=tab, key="table")
+    L(ctx, "build_open_order_err_response", ctx.body(ctx.find(path="barter_execution::exchange::mock::build_open_order_err_response")),
+      "a rejection echoes the request's own key / side / price / quantity / kind with the error",
+      ret="Order::Order{key: request.key, side: request.state.side, price: request.state.price, quantity: request.state.quantity, "
+          "kind: request.state.kind, time_in_force: request.state.time_in_force, state: Result::Err{0: Into::into(error)}}", effects=[])
+    L(ctx, "AssetFees::quote_fees", ctx.body(ctx.find(path="barter_execution::trade::AssetFees::<barter_instrument::asset::QuoteAsset>::quote_fees")),
+      "the fee constructor stores the given amount", ret="AssetFees::AssetFees{asset: QuoteAsset::QuoteAsset{}, fees: fees}", effects=[])
+    L(ctx, "MockExchange::build_account_event", ctx.fbody(name="build_account_event", self_adt=MX, trait=""),
+      "notifications carry the exchange's own id and the given payload", ret="AccountEvent::AccountEvent{exchange: self.exchange, kind: Into::into(kind)}", effects=[])
+    L(ctx, "AccountState::update_time_exchange", ctx.fbody(name="update_time_exchange", self_adt=ACC, trait=""),
+      "advancing exchange time only re-stamps balances and open orders (no amount changes)",
+      effects=["HashMap::values_mut(self.balances)", "HashMap::values_mut(self.orders_open)",
+               "Iterator::next(HashMap::values_mut(self.balances)) IF (Iterator::next(HashMap::values_mut(self.balances)) is Some)",
+               "Iterator::next(HashMap::values_mut(self.orders_open)) IF (Iterator::next(HashMap::values_mut(self.orders_open)) is Some)",
+               "Iterator::next(HashMap::values_mut(self.balances)).as:Some.0.time_exchange <- time_exchange IF (Iterator::next(HashMap::values_mut(self.balances)) is Some)",
+               "Iterator::next(HashMap::values_mut(self.orders_open)).as:Some.0.state.time_exchange <- time_exchange IF (Iterator::next(HashMap::values_mut(self.orders_open)) is Some)"])
+
+
 RULES = [
     ("R1", "order side selects the debited asset (Buy: quote, Sell: base), also in the error", r1),
     ("R2", "check-then-debit: stores guarded by free-required >= 0, store that difference, never before a rejection", r2),
@@ -399,4 +446,5 @@ RULES = [
     ("R4", "fresh ids: read-then-increment, drawn once, on the accepting path only; trade id derives from it", r4),
     ("R5", "accept => Some(balance,trade) / reject => None; run loop acks and notifies exactly once, balance then trade", r5),
     ("R6", "ledger encapsulation and queries: writers of trades / balance amounts, trades(since) uses >=", r6),
+    ("R7", "one-step helpers play their roles: keyed balance / instrument lookup, append-only ack, snapshot views, echoing rejection", r7),
 ]
